@@ -501,7 +501,7 @@ def checks(tier):
             "forms",
             _run,
             strategy=_cases(ml),
-            examples={"quick": 9000, "thorough": 16 * 75000},
+            examples={"quick": 9000, "thorough": 16 * 50000},
             shards={"quick": 8, "thorough": 16},
         ),
     ]
